@@ -109,7 +109,7 @@ func (w *World) infixModel() *infixModel {
 						m.order = append(m.order, t)
 						continue
 					}
-					if !w.isNodeEvaluator(cal) && cal != m.truthy {
+					if !w.coreModel().canonicalSet()[cal] && cal != m.truthy {
 						next = append(next, cal)
 					}
 				}
@@ -158,7 +158,9 @@ func (m *infixModel) inlineHelpers(caller, callee *ssa.Function) bool {
 			return true
 		}
 	}
-	return !m.w.isNodeEvaluator(callee)
+	// (an evaluator of a node type that the expression dispatcher hands over to is a fixed point;
+	// a method that only this evaluator calls is a part of it, whatever its parameter)
+	return !m.w.coreModel().canonicalSet()[callee]
 }
 
 func stripIface(v ssa.Value) ssa.Value {
